@@ -5,6 +5,7 @@ Bug = "none"
 Labels = {"x"}
 NL = 3
 MaxTotal = 16
+CrossOn = TRUE
 SPECIFICATION TSpec
 INVARIANT Judge
 CHECK_DEADLOCK FALSE
